@@ -91,18 +91,118 @@ def tasks_of(rec):
     return out, barrier_ok
 
 
-def stress(ctx, rep):
-    """failing-input search on the real code: many parents of one layer share a child, large batch, many threads"""
-    root = fan_net(16)
-    for attempt in range(6 if ctx.tier == 'quick' else 12):
-        nj = (16, -1)[attempt % 2]
-        X = np.full((2_000_000, 1), np.nan, dtype=np.float32)
-        Y = mpe(root, X, n_jobs=nj)
-        unfilled = int(np.isnan(Y).sum())
+def unfilled_after(root, X, nj, fn=None):
+    Y = (fn or mpe)(root, X, n_jobs=nj)
+    return int(np.isnan(Y[:, list(root.scope)]).sum())
+
+
+def forced_schedule(ctx, root, ncols, widen=0.002):
+    """failing-input search 1: the real code on the offending circuit under an adversarial (but admissible) scheduler: the hook pauses
+    between the read half and the write half of every UNLOCKED mask update (deeprob_verif_hooks.WIDEN)"""
+    H.RECORDER = H.NullRecorder()
+    H.WIDEN = widen
+    try:
+        for attempt in range(4 if ctx.tier == 'quick' else 12):
+            nj = (4, 8, -1, 3)[attempt % 4]
+            nrows = (16, 96)[attempt % 2]
+            # partial evidence, so that different rows descend through different parents of the shared child
+            rs = np.random.RandomState(attempt)
+            X = rs.randint(2, size=(nrows, ncols)).astype(np.float32)
+            X[rs.rand(nrows, ncols) < 0.6] = np.nan
+            X[0, :] = np.nan
+            ctx.count('forced-schedule-runs')
+            # sampling spreads the rows over all branches (mpe sends equal rows down one branch), so both racing parents carry rows
+            for q in ('sample', 'mpe'):
+                np.random.seed(attempt)
+                n = unfilled_after(root, X.copy(), nj, sample if q == 'sample' else mpe)
+                if n:
+                    return dict(kind='c08-forced', query=q, rows=np.where(np.isnan(X), None, X).tolist(), n_jobs=nj, unfilled=n, widen=widen, attempt=attempt)
+    finally:
+        H.WIDEN = 0.0
+        H.RECORDER = None
+    return None
+
+
+def stress(ctx, rep, root=None, ncols=None):
+    """failing-input search 2: un-instrumented runs of the real code: the offending circuit, then many parents of one shared child;
+    large batches, many threads"""
+    cands = ([('offending', root, ncols)] if root is not None else []) + [('fan16', fan_net(16), 1)]
+    for attempt in range(6 if ctx.tier == 'quick' else 16):
+        which, net, nc = cands[attempt % len(cands)]
+        nj = (16, -1)[(attempt // len(cands)) % 2]
+        rows = 2_000_000 if which == 'fan16' else 400_000
+        X = np.full((rows, nc), np.nan, dtype=np.float32)
+        unfilled = unfilled_after(net, X, nj)
         ctx.count('stress-runs')
         if unfilled:
-            return dict(kind='c08-stress', parents=16, rows=2_000_000, n_jobs=nj, unfilled=unfilled, attempt=attempt)
+            return dict(kind='c08-stress', net=which, parents=16, rows=rows, n_jobs=nj, unfilled=unfilled, attempt=attempt)
     return None
+
+
+def nested_net(rs, nv):
+    """root sum with a nested sum (prune merges it) and shared leaves"""
+    leaves = {v: [Bernoulli(v, float(rs.uniform(0.1, 0.9))) for _ in range(2)] for v in range(nv)}
+    def prod():
+        return Product(children=[leaves[v][rs.randint(2)] for v in range(nv)])
+    inner = Sum(children=[prod(), prod()], weights=[0.3, 0.7])
+    single = Product(children=[Sum(children=[prod()], weights=[1.0])]) if rs.rand() < 0.5 else prod()
+    w = rs.dirichlet(np.ones(3)).astype(np.float32)
+    root = Sum(children=[inner, single, prod()], weights=w / w.sum())
+    return assign_ids(root)
+
+
+def history_stream(ctx, quick):
+    """histories on ONE root object: a parallel query, an in-place change of the structure (prune without copy, a new component,
+    re-labelling), then the same parallel query again — it must still equal the sequential result on the object as it is now"""
+    from deeprob.spn.algorithms.structure import prune
+    for k in range(8 if quick else 80):
+        rs = np.random.RandomState(np_seed(ctx.sub_rng('hist', k)))
+        nv = int(rs.randint(2, 5))
+        root = nested_net(rs, nv) if k % 2 == 0 else random_dag(rs)
+        if not isinstance(root, Sum):
+            continue
+        nv = max(root.scope) + 1
+        dom = S.domain_of(S.export_net(root)[1])
+        Q = np.array([[rs.randint(max(dom[v], 1)) for v in range(nv)] for _ in range(6)], dtype=np.float32)
+        Qn = Q.copy()
+        Qn[rs.rand(*Qn.shape) < 0.5] = np.nan
+        steps = []
+        try:
+            for nj in (2, -1):
+                log_likelihood(root, Qn, n_jobs=nj), mpe(root, Qn, n_jobs=nj)
+            steps.append('parallel log_likelihood+mpe')
+            change = ('prune-inplace', 'new-component', 'prune-inplace+new-component')[k % 3]
+            if 'prune' in change:
+                root = prune(root, copy=False)
+                if getattr(root, 'children', None):
+                    assign_ids(root)
+            if 'new-component' in change and isinstance(root, Sum):
+                comp = Product(children=[Bernoulli(v, float(rs.uniform(0.2, 0.8))) for v in sorted(root.scope)]) if len(root.scope) > 1 \
+                    else Bernoulli(root.scope[0], 0.3)
+                root.children.append(comp)
+                w = np.append(np.asarray(root.weights, dtype=np.float64) * 0.75, 0.25).astype(np.float32)
+                root.weights = w / w.sum()
+                assign_ids(root)
+            steps.append(change)
+        except Exception as ex:
+            ctx.count('history-setup-raised')
+            continue
+        ctx.count('histories')
+        ctx.count('history:' + change)
+        table, order, _, _ = S.export_net(root)
+        rep = dict(kind='c08-hist', k=k, seed=ctx.seed, steps=steps, table=table_with_py(table, order), rows=np.where(np.isnan(Qn), None, Qn).tolist())
+        ref_ll, ref_m = log_likelihood(root, Qn), mpe(root, Qn)
+        for nj in (2, 4, -1):
+            try:
+                b, c = log_likelihood(root, Qn, n_jobs=nj), mpe(root, Qn, n_jobs=nj)
+            except Exception as ex:
+                ctx.violation('c08-history-raises', f'after the history {steps} on one root object, the parallel pass (n_jobs={nj}) raised {type(ex).__name__}: {ex} '
+                                                    f'while the sequential pass returns', replay=dict(rep, n_jobs=nj))
+                return
+            if not np.array_equal(b, ref_ll) or not np.array_equal(np.nan_to_num(c, nan=-9.5), np.nan_to_num(ref_m, nan=-9.5)):
+                ctx.violation('c08-history-result', f'after the history {steps} on one root object, n_jobs={nj} gives {np.asarray(b).reshape(-1)[:4].tolist()} but the '
+                                                    f'sequential pass {np.asarray(ref_ll).reshape(-1)[:4].tolist()}', replay=dict(rep, n_jobs=nj))
+                return
 
 
 def run(ctx):
@@ -167,7 +267,7 @@ def run(ctx):
                 if ans != 'disciplined':
                     ctx.count('undisciplined-traces')
                     if discipline_broken is None:
-                        discipline_broken = (name, label, ans, rep)
+                        discipline_broken = (name, label, ans, rep, root, ncols)
                 if label.startswith('top-down'):
                     drv.ask(dict(op='net', nodes=table, root=index[id(root)], dom=dom))
                     m = drv.ask(dict(op='layers'))
@@ -181,17 +281,26 @@ def run(ctx):
                         ctx.violation('c08-layers-run', f'the layers actually run differ from topological_order_layered [{name}]', replay=rep, found_input=False)
         if ctx.n_new() >= 3:
             return
+    if ctx.n_new() == 0:
+        history_stream(ctx, quick)
     if discipline_broken is not None:
-        name, label, ans, rep = discipline_broken
+        name, label, ans, rep, bad_root, bad_ncols = discipline_broken
         # the theorem topdown_atomic_schedule_indep no longer applies: by nonatomic_lost_update an interleaving of the recorded
         # read / write halves loses an update. Search the real code for a run on which this happens.
-        found = stress(ctx, rep)
         hist = dict(kind='c08-history', net=name, pass_=label, offending=ans,
                     note='by theorem nonatomic_lost_update: schedule read(A), read(B), write(A), write(B) of the two recorded read-modify-write updates of the same mask row loses the update of A')
+        found = forced_schedule(ctx, bad_root, bad_ncols) if label.startswith('top-down') else None
+        if found:
+            ctx.violation('c08-lost-update', f'unsynchronised read-modify-write of a shared mask row ({ans}) [{name}]; with a pause between the read and the '
+                                             f'write half of the unlocked updates, {found["query"]} with n_jobs={found["n_jobs"]} leaves {found["unfilled"]} entries unfilled '
+                                             f'on {len(found["rows"])} partially observed rows',
+                          replay=dict(found, table=rep['table'], history=hist))
+            return
+        found = stress(ctx, rep, bad_root, bad_ncols)
         if found:
             ctx.violation('c08-lost-update', f'unsynchronised read-modify-write of a shared mask row ({ans}); on the real code {found["unfilled"]} entries stay unfilled '
-                                             f'with {found["parents"]} parents of one shared child, {found["rows"]} rows, n_jobs={found["n_jobs"]}',
-                          replay=dict(found, history=hist))
+                                             f'({found["net"]} circuit, {found["rows"]} rows, n_jobs={found["n_jobs"]})',
+                          replay=dict(found, table=rep['table'], history=hist))
         else:
             ctx.violation('c08-discipline', f'{label} pass is not disciplined: {ans} [{name}]; no run of the real code lost an update in this search',
                           replay=hist, found_input=False)
@@ -199,7 +308,46 @@ def run(ctx):
 
 def replay(rep):
     r = rep['replay']
+    if r.get('kind') == 'c08-hist':
+        class _C:   # the history is regenerated from its seed (the stale state lives in the library, not in the table)
+            pass
+        from harness.common import Ctx
+        print('history:', r['steps'], '- rerun `check.py C08` with the same seed to regenerate it; comparing the final object only')
+        from harness.build import build_from_table
+        root, _ = build_from_table(r['table'])
+        Q = np.array([[np.nan if v is None else v for v in row] for row in r['rows']], dtype=np.float32)
+        a, b = log_likelihood(root, Q), log_likelihood(root, Q, n_jobs=r['n_jobs'])
+        return bool(np.array_equal(a, b))
+    if r.get('kind') == 'c08-forced':
+        from harness.build import build_from_table
+        root, _ = build_from_table(r['table'])
+        assign_ids(root)
+        ncols = max(root.scope) + 1
+        H.RECORDER = H.NullRecorder()
+        H.WIDEN = r['widen']
+        try:
+            for attempt in range(6):
+                X = np.array([[np.nan if v is None else v for v in row] for row in r['rows']], dtype=np.float32)
+                np.random.seed(attempt)
+                n = unfilled_after(root, X.copy(), r['n_jobs'], sample if r.get('query') == 'sample' else mpe)
+                print('attempt', attempt, 'unfilled entries under the widened schedule', n)
+                if n:
+                    return False
+        finally:
+            H.WIDEN = 0.0
+            H.RECORDER = None
+        return True
     if r.get('kind') == 'c08-stress':
+        if r.get('net') == 'offending':
+            from harness.build import build_from_table
+            root, _ = build_from_table(r['table'])
+            assign_ids(root)
+            for attempt in range(8):
+                n = unfilled_after(root, np.full((r['rows'], max(root.scope) + 1), np.nan, dtype=np.float32), r['n_jobs'])
+                print('attempt', attempt, 'unfilled entries', n)
+                if n:
+                    return False
+            return True
         root = fan_net(r['parents'])
         for attempt in range(8):
             X = np.full((r['rows'], 1), np.nan, dtype=np.float32)
